@@ -53,7 +53,9 @@ def field_names(sizes, variant):
     """variant bit 2: every field of a given width carries the same name (reserved / pad fields repeat in real tables)"""
     if variant & 32:      # the name is the string literal as declared: blanks / tabs at its ends belong to it
         pat = [' hl_bay %d', 'hl_events (total) %d ', '\thl tab %d', '  two  blanks  %d  ', 'plain_%d']
-        return [(pat[i % len(pat)] % i, s) for i, s in enumerate(sizes)]
+        # ... and per cent signs in it are characters, not conversions
+        pct = ['hl_fan_duty_over_90%', 'load %% of max', 'rate %d/s', '100%s', '%']
+        return [((pat[i % len(pat)] % i) if i % 2 == 0 else pct[(i // 2) % len(pct)] + ' #%d' % i, s) for i, s in enumerate(sizes)]
     if variant & 8:
         return [('hl i2c bus-%d events (w=%d) over 85\u00b0C \u2211.' % (i, s), s) for i, s in enumerate(sizes)]   # punctuation, non-ASCII
     if variant & 4:
